@@ -260,7 +260,14 @@ def exBox : Shape ℝ := .margin (.box ⟨⟨1, 2, 3⟩, .c⟩) 0.1
 def exMesh : Shape ℝ :=
   .mesh #[⟨0, 0, 0⟩, ⟨1, 0, 0⟩, ⟨0, 1, 0⟩, ⟨0, 0, 1⟩] [(0, 1, 2), (0, 1, 3), (0, 2, 3), (1, 2, 3)]
 
-example : Admissible .jit exOps ∧ PosesContig exOps ∧ DirsContig exOps := by
+example (K : Kernels ℝ) : ∃ c0, atPose .jit K exBox exPose0 = .ok c0 ∧ exBox.hasMesh = false ∧
+    exBox.contigParams = true :=
+  ⟨_, rfl, rfl, rfl⟩
+
+example (K : Kernels ℝ) : ∃ c0, atPose .jit K exMesh exPose0 = .ok c0 ∧ c0.firstIdx = 0 :=
+  ⟨_, rfl, rfl⟩
+
+theorem exOps_admissible : Admissible .jit exOps ∧ PosesContig exOps ∧ DirsContig exOps := by
   refine ⟨?_, ?_, ?_⟩
   · intro p hp
     simp [exOps, posesOf] at hp
@@ -272,12 +279,33 @@ example : Admissible .jit exOps ∧ PosesContig exOps ∧ DirsContig exOps := by
     simp [exOps, dirsOf] at hd
     subst hd; rfl
 
-example (K : Kernels ℝ) : ∃ c0, atPose .jit K exBox exPose0 = .ok c0 ∧ exBox.hasMesh = false ∧
-    exBox.contigParams = true :=
-  ⟨_, rfl, rfl, rfl⟩
+/-- the theorems applied to the concrete history `exOps` on a Margin(Box) and on a tetrahedron
+mesh under the JIT: `update_refines_fresh(_noMesh)`, `cache_invariant`, `box_vertices_current`,
+`no_typeErr_contiguous_pose`, `no_exception_contiguous_pose` all have their hypotheses met -/
+example (K : Kernels ℝ) (c0 : Collider ℝ) (h : atPose .jit K exBox exPose0 = .ok c0) :
+    run .jit K c0 exOps = runFreshPlain .jit K exBox exPose0 exOps ∧
+    (∀ o ∈ run .jit K c0 exOps, o ≠ .error .typeErr) :=
+  ⟨update_refines_fresh_noMesh .jit K exBox exPose0 c0 exOps rfl h exOps_admissible.1,
+   no_typeErr_contiguous_pose K exBox exPose0 c0 exOps rfl rfl h exOps_admissible.2.1 exOps_admissible.2.2⟩
 
-example (K : Kernels ℝ) : ∃ c0, atPose .jit K exMesh exPose0 = .ok c0 ∧ c0.firstIdx = 0 :=
-  ⟨_, rfl, rfl⟩
+example (K : Kernels ℝ) (hK : HillClimbTotal K) (c0 : Collider ℝ)
+    (h : atPose .jit K exMesh exPose0 = .ok c0) :
+    run .jit K c0 exOps = runFresh .jit K exMesh exPose0 0 exOps ∧
+    (∀ o ∈ run .jit K c0 exOps, ∃ v, o = .ok v) ∧
+    (∃ f idx, atPose .jit K exMesh exPose0 = .ok f ∧ finalState .jit K c0 exOps = f.setFirstIdx idx) := by
+  have hc : c0.firstIdx = 0 := by
+    have : atPose .jit K exMesh exPose0 = .ok _ := rfl
+    rw [this] at h; injection h with h; subst h; rfl
+  refine ⟨?_, ?_, ?_⟩
+  · rw [← hc]; exact update_refines_fresh .jit K exMesh exPose0 c0 exOps h exOps_admissible.1
+  · exact no_exception_contiguous_pose .jit K hK exMesh exPose0 c0 exOps rfl rfl h
+      exOps_admissible.2.1 exOps_admissible.2.2
+  · exact cache_invariant .jit K exMesh exPose0 c0 exOps h exOps_admissible.1
+
+example (K : Kernels ℝ) (c0 : Collider ℝ)
+    (h : atPose .jit K (.box ⟨⟨1, 2, 3⟩, .c⟩) exPose0 = .ok c0) :
+    finalState .jit K c0 exOps = .box ⟨exPose0, ⟨⟨1, 2, 3⟩, .c⟩, convertBox exPose0.val.P ⟨1, 2, 3⟩⟩ :=
+  box_vertices_current .jit K _ exPose0 c0 exOps h exOps_admissible.1
 
 /-- a kernel record whose hill climb is start-independent exists (here: every kernel trivial
 except a hill climb that ignores its start), so the hypothesis of
